@@ -14,7 +14,7 @@ RULE = ("instruction level: every operator tree of depth 1 (3 operators x all ch
         "items) and depth 2 (3 operators x all ordered pairs over base items + depth-1 binary trees [quick: 3 base items]) "
         "each alone and (depth 1, and depth 2 in thorough) in the context 'ret, T, ret' / 'T, ret'; operand level: every "
         "tree of depth 1..2 over 3 operand names placed as only operand item, before and after a plain operand item; "
-        "$deref level: every $or of 2..3 alternatives in each deref field; wide/deep family: $or of 8/16/25 alternatives with the matching one first/middle/last, $and_any_order of 4 and 5 children (with duplicates) on every listing of length 4 / 5, nesting chains of depth 3..6; x EVERY listing up to the bound over the "
+        "$deref level: every $or of 2..3 alternatives in each deref field; long-listing family: $and / $and_any_order / $or sequences whose only occurrence touches each 4096..65536 instruction boundary of listings up to 65539 (thorough 131075) instructions; wide/deep family: $or of 8/16/25 alternatives with the matching one first/middle/last, $and_any_order of 4 and 5 children (with duplicates) on every listing of length 4 / 5, nesting chains of depth 3..6; x EVERY listing up to the bound over the "
         "family's near-miss alphabet. Oracle: reference matcher (union / sequence / permutations with each child used "
         "once): verdict, spans genuine and record aligned. Non-trivial = reference finds the rule or its first item "
         "matches somewhere.")
@@ -139,7 +139,13 @@ def build_lsets(h, tier):
             "wd4": e1.ListingSet(h, ALPHA_I, 4, minlen=4), "wd5": e1.ListingSet(h, ALPHA_I[:1] + ALPHA_I[2:], 5, minlen=5)}
 
 
+LONGLIST = [([{"$and": ["mov", "push"]}, "ret"], [("mov", ["%rax", "%rbx"]), ("push", ["%rax"]), ("ret", [])]),
+            ([{"$and_any_order": ["mov", "push"]}, {"$or": ["ret", "leave"]}], [("push", ["%rax"]), ("mov", ["%rax", "%rbx"]), ("ret", [])]),
+            (["mov", {"$or": ["push", "pop"]}, "ret"], [("mov", ["%rax", "%rbx"]), ("pop", ["%rax"]), ("ret", [])])]
+
+
 def run_shard(shard, tier, h, res, known):
+    e1.run_long_family(h, res, known, shard, LONGLIST, [65600] if tier == "quick" else [4200, 8300, 32800, 65600, 131200], prop=ID)
     e1.run_rules(h, res, known, all_rules(tier), e1.get_lsets(h, tier, build_lsets), shard, prop=ID)
 
 
@@ -162,4 +168,6 @@ def controls(h):
 
 
 def replay(case, h):
+    if case.get("family") == "longlisting":
+        return e1.replay_long_case(case, h)
     return e1.replay_case(case, h, want=("verdict", "aligned", "genuine"))
